@@ -39,6 +39,7 @@ def opOf (j : Json) : Op :=
       { deleting := bool x "del", paused := bool x "paused", hasCompositionRef := !(bool x "nocomp"),
         ready := !(bool x "notready"), synced := !(bool x "unsynced"),
         refs := (arr x "refs").map fun r => if str r "bad" == "" then some (nat r "g") else none })
+  | "cacheRead" => .cacheRead (nat j "g")
   | _ => .removeInformer (nat j "g")
 
 /-- the external call a thread is parked at, in the harness' notation -/
@@ -48,6 +49,7 @@ def hookOf (t : Thread) : Option String :=
     match t.op with
     | .gc _ _ => some "p:LS:0"
     | .removeInformer g => some s!"p:RI:{g}"
+    | .cacheRead g => some s!"p:CR:{g}"
     | _ => none
   | .stNC n => some s!"p:NC:{n}"
   | .spGI _ _ wid _ | .swGI _ _ _ wid _ | .xwGI _ wid _ _ _ => some s!"p:GI:{wid.gvk}"
